@@ -55,6 +55,10 @@ def scripts(rng, tier, n=None):
                 cc_, xd, pl = [(1, b"", 0), (3, rand_key(rng, 4), 4), (15, b"", 16), (2, rand_key(rng, 4), 3)][i]
                 pkt = rtp_packet(ssrcs[0], seq & 0xffff, payload=rand_key(rng, pl), cc=cc_, ext=(0xBEDE, xd))
                 seq += 1
+            elif i == 6:
+                # a payload shorter than any tag (0..7 octets), no extension: length arithmetic with the tag at its smallest operand
+                pkt = rtp_packet(ssrcs[0], seq & 0xffff, payload=rand_key(rng, [0, 1, 5, 7][k % 4]), cc=rng.choice([0, 0, 1]))
+                seq += 1
             elif gaps and not wild and (rng.random() < 0.3 or (forced_late and i == 3)):
                 late = gaps.pop(rng.randrange(len(gaps)))
                 pkt = rand_rtp(rng, ssrcs[0], late & 0xffff, ids=list(p.enc_xtn) or None, big=big, ext_p=ext_p)
